@@ -104,6 +104,7 @@ static void env_thr_mark_active(void *arg) { proxy.dev[PVOID2INT(arg)].thread_ac
 #define ENV_MAX_CLIENTS 4
 #define ENV_MAX_FRAMES  64
 #define ENV_FRAME_LINES 6
+#define ENV_FRAME_MAXLINES 24      /* big frames (conformance runs): 20 Teletext lines + VPS + Caption + WSS = 23 */
 #define ENV_MAX_LOG     256
 
 /* ---- capture model ------------------------------------------------------- */
@@ -114,7 +115,7 @@ static void env_thr_mark_active(void *arg) { proxy.dev[PVOID2INT(arg)].thread_ac
 typedef struct {
         double     timestamp;
         int        nlines;
-        vbi_sliced lines[ENV_FRAME_LINES];
+        vbi_sliced lines[ENV_FRAME_MAXLINES];
 } env_frame_t;
 
 struct env_capture {
@@ -139,6 +140,7 @@ static struct {
 static int    env_passthrough;           /* 1: real select()/send()/time(): the daemon runs as a separate process (conformance runs) */
 static void (*env_on_capture)(int k);    /* called when the daemon reads frame k from the capture object */
 static unsigned env_buffer_count = 0;    /* daemon option -buffers (0: default) */
+static int env_big_frames;       /* 1: 23 lines per frame, so that a SLICED_IND for a Teletext subscriber is larger than every other message */
 static void env_make_frame(int k, env_frame_t *f)
 {
         static const struct { unsigned id; int line; } L[ENV_FRAME_LINES] = {
@@ -147,9 +149,16 @@ static void env_make_frame(int k, env_frame_t *f)
         };
         memset(f, 0, sizeof *f);
         f->timestamp = 1000.0 + k * 0.04;
-        f->nlines = ENV_FRAME_LINES;
-        for (int i = 0; i < ENV_FRAME_LINES; i++) {
-                f->lines[i].id = L[i].id; f->lines[i].line = L[i].line;
+        if (env_big_frames) {
+                int n = 0;
+                for (int l = 7; l <= 23; l++) { f->lines[n].id = l == 16 ? VBI_SLICED_VPS : l == 22 ? VBI_SLICED_CAPTION_625 : l == 23 ? VBI_SLICED_WSS_625 : VBI_SLICED_TELETEXT_B; f->lines[n++].line = l; }
+                for (int l = 320; l <= 325; l++) { f->lines[n].id = VBI_SLICED_TELETEXT_B; f->lines[n++].line = l; }
+                f->nlines = n;
+        } else {
+                f->nlines = ENV_FRAME_LINES;
+                for (int i = 0; i < ENV_FRAME_LINES; i++) { f->lines[i].id = L[i].id; f->lines[i].line = L[i].line; }
+        }
+        for (int i = 0; i < f->nlines; i++) {
                 for (int b = 0; b < 56; b++) f->lines[i].data[b] = (uint8_t)(k * 7 + i * 31 + b);
                 f->lines[i].data[0] = (uint8_t) k; f->lines[i].data[1] = (uint8_t) i;
         }
@@ -167,7 +176,7 @@ static int cap_read(vbi_capture *c, vbi_capture_buffer **raw, vbi_capture_buffer
         if (env_on_capture) env_on_capture(k);
         if (raw && *raw && (*raw)->data) { memset((*raw)->data, k, 64); (*raw)->size = 64; (*raw)->timestamp = f->timestamp; }
         if (sliced) {
-                static vbi_capture_buffer own; static vbi_sliced own_lines[ENV_FRAME_LINES];
+                static vbi_capture_buffer own; static vbi_sliced own_lines[ENV_FRAME_MAXLINES];
                 vbi_capture_buffer *b = *sliced;
                 if (!b) { b = &own; b->data = own_lines; *sliced = b; }
                 /* like a real driver the device decodes the services it was programmed for (the committed union), no others */
@@ -185,8 +194,8 @@ static void cap_set_ranges(vbi_capture *c)
 {       /* in place, as the V4L drivers do it: the daemon keeps the pointer vbi_capture_parameters() returned once */
         vbi_raw_decoder *d = &((struct env_capture *) c)->dec;
         unsigned u = env_cap.services_union;
-        d->count[0] = 1 + ((u & VBI_SLICED_TELETEXT_B) ? 2 : 0) + !!(u & VBI_SLICED_VPS) + !!(u & VBI_SLICED_CAPTION_625) + !!(u & VBI_SLICED_WSS_625);
-        d->count[1] = 1 + ((u & VBI_SLICED_TELETEXT_B) ? 1 : 0);
+        d->count[0] = 1 + ((u & VBI_SLICED_TELETEXT_B) ? (env_big_frames ? 14 : 2) : 0) + !!(u & VBI_SLICED_VPS) + !!(u & VBI_SLICED_CAPTION_625) + !!(u & VBI_SLICED_WSS_625);
+        d->count[1] = 1 + ((u & VBI_SLICED_TELETEXT_B) ? (env_big_frames ? 6 : 1) : 0);
 }
 static vbi_raw_decoder *cap_parameters(vbi_capture *c) { return &((struct env_capture *) c)->dec; }
 static unsigned int cap_update_services(vbi_capture *c, vbi_bool reset, vbi_bool commit, unsigned int services, int strict, char **err)
